@@ -186,9 +186,10 @@ def run_one(spec):
         res['late_refused'] = late is None and all(x is None for x in late_others)
         res['census'] = census(pool, allpids)
     elif kind == 'terminate':
-        pool = bp.Pool(spec.get('n', 2), threads=True, maxtasksperchild=spec.get('maxtasks'))
+        pool = bp.Pool(spec.get('n', 2), threads=True, maxtasksperchild=spec.get('maxtasks'), timeout=spec.get('hard'))
         pids = [p.pid for p in pool._pool]
-        done = pool.apply_async(t_double, (21,))
+        # job_limit: a per-job time limit on a pool that may have been created without limits
+        done = pool.apply_async(t_double, (21,), timeout=spec.get('job_limit'), soft_timeout=spec.get('job_soft'))
         done.get(timeout=10)
         if spec.get('maxtasks'):
             # every original worker is recycled first: terminate() then has to deal with replacements
